@@ -3,6 +3,11 @@
 //! disk beside canary trees and sibling layers; the real `uncached_layer`, `cached_layer` + DeleteLayer and trait
 //! `handle_layer` + Recreate; whole-root snapshot (kind, mode, content, link target, link count of a regular file when
 //! it is not 1) before and after.
+//! The outcome of the buildpack's part of the call is a dimension of the request field: `U` `C` `T` = every callback
+//! succeeds and decides to delete; `Cd` / `Td` = the deciding callback (`restored_layer_action` / `invalid_metadata_action`,
+//! `existing_layer_strategy` / `migrate_incompatible_metadata`) returns `Err`; `Tc` = `Layer::create` returns `Err`
+//! (a recreate is a deletion, then the buildpack's `create`: the state right after the failing call is what is judged).
+//! None of the test buildpack's callbacks touches the file system.
 //! Cases tagged `user` run the operation in a child process under `setpriv --reuid=65534 --regid=65534 --clear-groups`
 //! (the tree is built, chown-ed and snapshotted by the root parent).
 #![allow(deprecated)]
@@ -33,23 +38,47 @@ const LAYER_NAMES: [&[u8]; 12] = [b"lyr", b"a", b"my-layer.1", b"lyr.x", b"lyr.x
 struct V { v: i64 }
 
 // ---------------------------------------------------------------------------------------------- the operations
-struct RecreateLayer<'a> { consulted: &'a Cell<bool> }
+/// what the buildpack's callbacks do in one request
+#[derive(Clone, Copy, PartialEq)]
+enum Bp { Ok, CreateErr, DecideErr }
+
+/// the request field: API + what the buildpack's part does (`Cc`, `Uc`, `Ud` do not exist: no such callback)
+fn parse_api(api: &str) -> Option<(&'static str, Bp)> {
+    match api { "U" => Some(("U", Bp::Ok)), "C" => Some(("C", Bp::Ok)), "T" => Some(("T", Bp::Ok)), "Cd" => Some(("C", Bp::DecideErr)), "Td" => Some(("T", Bp::DecideErr)), "Tc" => Some(("T", Bp::CreateErr)), _ => None }
+}
+
+struct RecreateLayer<'a> { consulted: &'a Cell<bool>, bp: Bp }
 impl Layer for RecreateLayer<'_> {
     type Buildpack = TestBuildpack;
     type Metadata = V;
     fn types(&self) -> LayerTypes { LayerTypes { launch: true, build: true, cache: true } }
-    fn create(&mut self, _c: &BuildContext<TestBuildpack>, _p: &Path) -> Result<LayerResult<V>, TbError> { LayerResultBuilder::new(V { v: 7 }).build() }
-    fn existing_layer_strategy(&mut self, _c: &BuildContext<TestBuildpack>, _d: &LayerData<V>) -> Result<ExistingLayerStrategy, TbError> { self.consulted.set(true); Ok(ExistingLayerStrategy::Recreate) }
-    fn migrate_incompatible_metadata(&mut self, _c: &BuildContext<TestBuildpack>, _m: &GenericMetadata) -> Result<MetadataMigration<V>, TbError> { self.consulted.set(true); Ok(MetadataMigration::RecreateLayer) }
+    fn create(&mut self, _c: &BuildContext<TestBuildpack>, _p: &Path) -> Result<LayerResult<V>, TbError> {
+        if self.bp == Bp::CreateErr { return Err(TbError("create".into())); }
+        LayerResultBuilder::new(V { v: 7 }).build()
+    }
+    fn existing_layer_strategy(&mut self, _c: &BuildContext<TestBuildpack>, _d: &LayerData<V>) -> Result<ExistingLayerStrategy, TbError> {
+        self.consulted.set(true);
+        if self.bp == Bp::DecideErr { return Err(TbError("decide".into())); }
+        Ok(ExistingLayerStrategy::Recreate)
+    }
+    fn migrate_incompatible_metadata(&mut self, _c: &BuildContext<TestBuildpack>, _m: &GenericMetadata) -> Result<MetadataMigration<V>, TbError> {
+        self.consulted.set(true);
+        if self.bp == Bp::DecideErr { return Err(TbError("decide".into())); }
+        Ok(MetadataMigration::RecreateLayer)
+    }
 }
 
-fn stage(e: &libcnb::Error<TbError>) -> &'static str {
+/// `consulted`: the deciding callback ran (and, unless it failed, decided to delete) before the error arose
+fn stage(e: &libcnb::Error<TbError>, consulted: bool) -> &'static str {
     match e {
         libcnb::Error::LayerError(le) => match le {
             LayerError::ReadLayerError(_) | LayerError::CouldNotReadGenericLayerMetadata(_) => "err:read",
             LayerError::DeleteLayerError(_) => "err:delete",
             LayerError::WriteLayerError(_) | LayerError::CouldNotReadLayerAfterCreate(_) | LayerError::IoError(_) | LayerError::UnexpectedMissingLayer => "err:write",
         },
+        // the buildpack's own error, by the callback that returned it: the deciding one (nothing was deleted yet), `create` for
+        // a layer that did not exist, `create` after the existing layer had been deleted
+        libcnb::Error::BuildpackError(TbError(which)) => match which.as_str() { "decide" => "err:decide", "create" if consulted => "err:recreate", "create" => "err:create", _ => "err:other" },
         _ => "err:other",
     }
 }
@@ -66,15 +95,17 @@ fn state_res<A, B>(s: &LayerState<A, B>) -> &'static str {
 fn do_op(api: &str, layers: &Path, name: &str) -> String {
     let ctx = build_context(layers, layers.parent().unwrap());
     let Ok(lname) = name.parse::<LayerName>() else { return "bad-name".into() };
+    let Some((api, bp)) = parse_api(api) else { return "bad-api".into() };
+    let decide_fails = bp == Bp::DecideErr;
     match api {
-        "U" => match ctx.uncached_layer(lname, UncachedLayerDefinition { build: true, launch: true }) { Ok(r) => state_res(&r.state).into(), Err(e) => stage(&e).into() },
+        "U" => match ctx.uncached_layer(lname, UncachedLayerDefinition { build: true, launch: true }) { Ok(r) => state_res(&r.state).into(), Err(e) => stage(&e, false).into() },
         "C" => match ctx.cached_layer(lname, CachedLayerDefinition {
             build: true, launch: true,
-            invalid_metadata_action: &|_: &GenericMetadata| InvalidMetadataAction::<V>::DeleteLayer,
-            restored_layer_action: &|_: &V, _: &Path| RestoredLayerAction::DeleteLayer,
-        }) { Ok(r) => state_res(&r.state).into(), Err(e) => stage(&e).into() },
+            invalid_metadata_action: &|_: &GenericMetadata| -> Result<InvalidMetadataAction<V>, TbError> { if decide_fails { Err(TbError("decide".into())) } else { Ok(InvalidMetadataAction::DeleteLayer) } },
+            restored_layer_action: &|_: &V, _: &Path| -> Result<RestoredLayerAction, TbError> { if decide_fails { Err(TbError("decide".into())) } else { Ok(RestoredLayerAction::DeleteLayer) } },
+        }) { Ok(r) => state_res(&r.state).into(), Err(e) => stage(&e, false).into() },
         "T" => { let consulted = Cell::new(false);
-            match ctx.handle_layer(lname, RecreateLayer { consulted: &consulted }) { Ok(_) => if consulted.get() { "ok:recreated".into() } else { "ok:new".into() }, Err(e) => stage(&e).into() } }
+            match ctx.handle_layer(lname, RecreateLayer { consulted: &consulted, bp }) { Ok(_) => if consulted.get() { "ok:recreated".into() } else { "ok:new".into() }, Err(e) => stage(&e, consulted.get()).into() } }
         _ => "bad-api".into(),
     }
 }
@@ -450,7 +481,8 @@ fn make_case(api: &str, uid: &str, name: &[u8], kindtag: &str, shape: &Shape, r:
     let mut lk: Vec<&str> = g.links.clone(); lk.sort(); lk.dedup();
     let mut hk: Vec<&str> = g.hards.clone(); hk.sort(); hk.dedup();
     let nontrivial = present && shape.toml != "B" && (!g.links.is_empty() || g.oddmode || !g.hards.is_empty() || shape.top.starts_with("top-file"));
-    let mut tags = vec![("kind".to_string(), format!("{kindtag}-{api}-{uid}")), ("top".into(), shape.top.into()), ("toml".into(), shape.toml.into()), ("depth".into(), depth.to_string()),
+    let bp = match api { "Tc" => "create-err", "Td" | "Cd" => "decide-err", _ => "ok" };
+    let mut tags = vec![("kind".to_string(), format!("{kindtag}-{api}-{uid}")), ("bp".into(), bp.into()), ("top".into(), shape.top.into()), ("toml".into(), shape.toml.into()), ("depth".into(), depth.to_string()),
         ("links".into(), g.links.len().min(6).to_string()), ("hard".into(), g.hards.len().min(6).to_string()), ("oddmode".into(), u8::from(g.oddmode).to_string()), ("layersmode".into(), format!("{:o}", shape.layers_mode))];
     for k in lk { tags.push((format!("link-{k}"), "1".into())); }
     for k in hk { tags.push((format!("hard-{k}"), "1".into())); }
@@ -514,6 +546,33 @@ fn generate(tier: &str, seed: u64, emit: &mut dyn FnMut(Case)) {
             emit(make_case(api, uid, b"lyr", "directed-hard", &shape, &mut r, 1, None));
         } }
     } }
+    // 0b. directed: the buildpack's part fails (own random stream). `Tc`: `Layer::create` returns Err - after the deletion when the
+    // layer existed (both deciding routes: a typed document -> existing_layer_strategy, any other document -> migrate_incompatible_metadata);
+    // `Td` / `Cd`: the deciding callback returns Err before anything is deleted. Every top-level shape x metadata-file state with
+    // SBOM files present, the hand-made contents, a hard-linked layer, confusable names.
+    let mut bidx = 0u64;
+    for api in ["Tc", "Td", "Cd"] { for uid in ["root", "user"] {
+        for top in tops { for toml in ["T", "~", "E", "G", "B"] {
+            if top != "dir" && top != "top-out-dir-rel" && top != "absent" && toml != "T" && toml != "~" { continue; }
+            if api != "Tc" && toml == "B" { continue; }
+            bidx += 1; let mut r = Rng::for_case(seed ^ 0xC11D, bidx);
+            let shape = Shape { top, toml, sboms: [true, bidx % 2 == 0, top == "dir"], layers_mode: 0o755 };
+            emit(make_case(api, uid, b"lyr", "directed-bp", &shape, &mut r, 1, if top == "dir" { Some(&*contents[(bidx % 5) as usize].1) } else { None }));
+        } }
+        for (cname, f) in &contents { for toml in ["T", "G"] { if api != "Tc" && toml == "G" { continue; }
+            bidx += 1; let mut r = Rng::for_case(seed ^ 0xC11D, bidx);
+            let shape = Shape { top: "dir", toml, sboms: [true, true, true], layers_mode: 0o755 };
+            let mut cs = make_case(api, uid, b"my-layer.1", "directed-bp", &shape, &mut r, 1, Some(&**f)); cs.tags.push(("content".into(), (*cname).into())); emit(cs); } }
+        for top in ["top-hard-file", "top-file-444"] { bidx += 1; let mut r = Rng::for_case(seed ^ 0xC11D, bidx);
+            let shape = Shape { top, toml: "T", sboms: [true, false, true], layers_mode: 0o755 };
+            emit(make_case(api, uid, b"lyr", "directed-bp", &shape, &mut r, 1, None)); }
+        for nm in [b"lyr.x".as_slice(), b"lyr.", b"lyr.toml", b"lyr.sbom", b"a.b"] { bidx += 1; let mut r = Rng::for_case(seed ^ 0xC11D, bidx);
+            let shape = Shape { top: "dir", toml: "T", sboms: [true, true, true], layers_mode: 0o755 };
+            let mut cs = make_case(api, uid, nm, "directed-bp", &shape, &mut r, 1, Some(&*contents[1].1)); cs.tags.push(("names".into(), "confusable".into())); emit(cs); }
+        if uid == "user" { for lm in [0o555u32, 0o300] { bidx += 1; let mut r = Rng::for_case(seed ^ 0xC11D, bidx);
+            let shape = Shape { top: "dir", toml: "T", sboms: [true, false, false], layers_mode: lm };
+            emit(make_case(api, uid, b"lyr", "directed-bp", &shape, &mut r, 1, Some(&*contents[1].1))); } }
+    } }
     let mut idx = 0u64;
     for api in ["U", "C", "T"] { for uid in ["root", "user"] {
         for top in tops { for toml in ["T", "~", "E", "G", "B"] {
@@ -534,10 +593,11 @@ fn generate(tier: &str, seed: u64, emit: &mut dyn FnMut(Case)) {
     } }
     // 2. sampled trees
     let total: u64 = if tier == "thorough" { 40_000 } else { 2_000 };
-    let samples = total.saturating_sub(idx + hidx);
+    let samples = total.saturating_sub(idx + hidx + bidx);
     for i in 0..samples {
         let mut r = Rng::for_case(seed, i);
-        let api = *r.pick(&["U", "C", "T"]);
+        // 5 in 12 of the sampled requests with a failing callback (create three times as often as each deciding one)
+        let api = *r.pick(&["U", "U", "C", "C", "T", "T", "T", "Tc", "Tc", "Tc", "Td", "Cd"]);
         let uid = if r.chance(2, 5) { "user" } else { "root" };
         let name: &[u8] = *r.pick(&LAYER_NAMES);
         let top = match r.below(100) { 0..=83 => "dir", 84..=94 => *r.pick(&tops[1..9]), 95..=97 => *r.pick(&FILE_TOPS), _ => "absent" };
